@@ -25,6 +25,7 @@ func init() {
 		Parts: []Part{
 			{Name: "faults", Run: c09Faults, QuickS: 90, ThoroughS: 1500},
 			{Name: "unsatisfiable", Run: c09Unsat, QuickS: 60, ThoroughS: 600},
+			{Name: "wrapped-pointer-candidates", Run: c09WrappedPtr, QuickS: 60, ThoroughS: 300},
 		},
 	})
 }
@@ -333,6 +334,75 @@ func c09Unsat(c *core.Ctx) {
 		}
 		if c.S.Programs%900 == 1 {
 			c.Sample(map[string]any{"program": p, "outcome": graphSig(o)})
+		}
+	})
+}
+
+// ---- pointer-typed points whose candidate a post-processor replaces by an object of another
+// type: the point cannot take it - an error (required) or an empty field (optional), never a panic
+
+func c09WrappedPtr(c *core.Ctx) {
+	type wc struct {
+		scen.GraphProg
+	}
+	gen := func(yield func(wc) bool) {
+		allGraphs(3, []int{scen.ENone, scen.ESlicePtr, scen.EPtr}, false, func(e [][]int) bool {
+			anyPtr := false
+			for i := range e {
+				for _, k := range e[i] {
+					anyPtr = anyPtr || k != scen.ENone
+				}
+			}
+			if !anyPtr {
+				return true
+			}
+			for node := 0; node < 3; node++ {
+				for plan := 1; plan < scen.NumWrapPlans; plan++ {
+					for _, opt := range []bool{false, true} {
+						w := []int{0, 0, 0}
+						w[node] = plan
+						p := scen.GraphProg{N: 3, Edges: e, Wrap: w, SliceOpt: opt, Obs: 1, Config: true, Full: true, Family: "wrapped-pointer"}
+						if !yield(wc{p}) {
+							return false
+						}
+					}
+				}
+			}
+			return true
+		})
+	}
+	Cases(c, gen, func(c *core.Ctx, cs wc) {
+		p := &cs.GraphProg
+		o := scen.RunGraph(p, envx.Fixed("", nil))
+		c.S.Evaluations++
+		c.S.Programs++
+		c.S.States++
+		c.S.Nontrivial++
+		c.S.Transitions += int64(o.Trace.Calls)
+		key := "C09/wrapped-pointer/" + core.Hash(p.Edges, p.Wrap, p.SliceOpt)
+		runs := 0
+		for _, e := range o.RT.Log {
+			if strings.HasPrefix(e, "run:") {
+				runs++
+			}
+		}
+		switch {
+		case o.Panic != "" || len(o.ChildPanics) > 0:
+			c.Outcome("wrapped-pointer/panic")
+			c.Report(key, "panic", fmt.Sprintf("graph %v with pointer-typed points, substitution plan %v (optional slices: %v): Run panicked instead of returning: %s %v", p.Edges, p.Wrap, p.SliceOpt, o.Panic, o.ChildPanics), cs)
+		case o.Abort != "":
+			c.Outcome("wrapped-pointer/hang")
+			c.Report(key, "non-termination", fmt.Sprintf("graph %v, substitution plan %v: %s", p.Edges, p.Wrap, o.Abort), cs)
+		case o.Err != nil && runs > 0:
+			c.Outcome("wrapped-pointer/runner-invoked")
+			c.Report(key, "runner-invoked", fmt.Sprintf("graph %v, substitution plan %v: start-up failed, yet %d runner(s) were invoked", p.Edges, p.Wrap, runs), cs)
+		case o.Err != nil:
+			c.Outcome("wrapped-pointer/error")
+		default:
+			c.Outcome("wrapped-pointer/started")
+		}
+		if c.S.Programs%500 == 1 {
+			c.Sample(map[string]any{"case": cs, "error": scen.FirstLine(o.Err)})
 		}
 	})
 }
